@@ -79,8 +79,8 @@ M('c16d-yield-without-intx-test', 'C16', 'break', TX,
   '        if ((tx->connp->in_status == HTP_STREAM_DATA_OTHER) && (tx->connp->in_tx == tx->connp->out_tx)) {',
   '        if ((tx->connp->in_status == HTP_STREAM_DATA_OTHER)) {', 'C16.d')
 M('c16d-flag-set-for-407', 'C16', 'break', RS,
-  '            if (connp->in_status != HTP_STREAM_ERROR)\n                connp->in_status = HTP_STREAM_DATA;\n        } else {',
-  '            if (connp->in_status != HTP_STREAM_ERROR)\n                connp->in_status = HTP_STREAM_DATA;\n            connp->out_data_other_at_tx_end = 1;\n        } else {', 'C16.d')
+  '            if ((connp->in_status != HTP_STREAM_ERROR) && (connp->in_status != HTP_STREAM_STOP))\n                connp->in_status = HTP_STREAM_DATA;\n        } else {',
+  '            if ((connp->in_status != HTP_STREAM_ERROR) && (connp->in_status != HTP_STREAM_STOP))\n                connp->in_status = HTP_STREAM_DATA;\n            connp->out_data_other_at_tx_end = 1;\n        } else {', 'C16.d')
 M('c16g-100-continue-keeps-progress', 'C16', 'break', RS,
   '            connp->out_state = htp_connp_RES_LINE;\n            connp->out_tx->response_progress = HTP_RESPONSE_LINE;\n            connp->out_tx->seen_100continue++;',
   '            connp->out_state = htp_connp_RES_LINE;\n            connp->out_tx->seen_100continue++;', 'C16.g')
@@ -268,7 +268,7 @@ M('c08b-junk-cap-deleted', 'C08', 'break', RQ,
   '        if (connp->in_current_len > connp->in_current_read_offset + HTTP09_MAX_JUNK_LEN) {',
   '        if (connp->in_current_len > connp->in_current_read_offset + HTTP09_MAX_JUNK_LEN && connp->in_tx->request_ignored_lines) {', 'C08.b')
 M('c08c-empty-chunk-line-not-consumed', 'C08', 'break', RS,
-  '            if (connp->out_chunked_length == -1004) {\n                connp->out_current_consume_offset = connp->out_current_read_offset;\n                continue;',
+  '            if (connp->out_chunked_length == -1004) {\n                htp_connp_res_clear_buffer(connp);\n                continue;',
   '            if (connp->out_chunked_length == -1004) {\n                continue;', 'C08.c')
 M('c08d-nul-skip-deleted', 'C08', 'break', 'htp/bstr.c',
   '        if (data1[i] == 0) {\n            // skip leading zeroes to avoid quadratic complexity\n            continue;\n        }\n',
@@ -512,8 +512,8 @@ M('c12g-reset-order-keep', 'C12', 'keep', UT,
   '                state = HTP_UTF8_ACCEPT;\n\n                // Advance over the consumed byte and reset the byte counter.\n                rpos++;\n                counter = 0;',
   '                counter = 0;\n                state = HTP_UTF8_ACCEPT;\n                rpos++;')
 M('c12g-continuation-resets', 'C12', 'break', UT,
-  '            default:\n                // Keep going; the character is not yet formed.\n                rpos++;\n                break;\n        }\n    }\n\n    // Did the input stream seem like a valid UTF-8 string?\n    if ((seen_valid) && (!(tx->flags & HTP_PATH_UTF8_INVALID))) {\n        tx->flags |= HTP_PATH_UTF8_VALID;\n    }\n}',
-  '            default:\n                // Keep going; the character is not yet formed.\n                rpos++;\n                counter = 0;\n                break;\n        }\n    }\n\n    // Did the input stream seem like a valid UTF-8 string?\n    if ((seen_valid) && (!(tx->flags & HTP_PATH_UTF8_INVALID))) {\n        tx->flags |= HTP_PATH_UTF8_VALID;\n    }\n}', 'C12.g')
+  '            default:\n                // Keep going; the character is not yet formed.\n                rpos++;\n                break;\n        }\n    }\n\n    // Did the path end inside a multi-byte character?\n    if (state != HTP_UTF8_ACCEPT) {\n        tx->flags |= HTP_PATH_UTF8_INVALID;\n    }\n',
+  '            default:\n                // Keep going; the character is not yet formed.\n                rpos++;\n                counter = 0;\n                break;\n        }\n    }\n\n    // Did the path end inside a multi-byte character?\n    if (state != HTP_UTF8_ACCEPT) {\n        tx->flags |= HTP_PATH_UTF8_INVALID;\n    }\n', 'C12.g')
 
 # ---------------- C01.i
 M('c01i-chain-cursor-not-advanced', 'C01', 'break', TX,
@@ -959,3 +959,26 @@ M('c07r-advance-measured-from-scan-start', 'C07', 'break', TX,
   '                size_t used = (size_t) (tok - input) + tok_len + 1;', '                size_t used = tok_len + 1;', 'C07.r')
 M('c07r-advance-written-in-one-expression-keep', 'C07', 'keep', TX,
   '                input += used;\n                input_len -= used;', '                input_len -= used;\n                input = tok + tok_len + 1;')
+
+# ---------------- second build round, later rules
+M('c01q-view-lengthened-by-hand', 'C01', 'break', RQ,
+  '        IN_COPY_BYTE_OR_RETURN(connp);\n        if (htp_connp_req_consolidate_data(connp, &data, &len) != HTP_OK) {\n            return HTP_ERROR;\n        }\n    }\n    // Interpret remaining bytes as body data',
+  '        IN_COPY_BYTE_OR_RETURN(connp);\n        len++;\n    }\n    // Interpret remaining bytes as body data', 'C01.q')
+M('c01s-early-return-keeps-the-decoded-buffer', 'C01', 'break', 'htp/htp_parsers.c',
+  '    connp->in_tx->request_auth_username = bstr_dup_ex(decoded, 0, i);', '    if (i + 1 == (int) bstr_len(decoded)) return HTP_OK;\n    connp->in_tx->request_auth_username = bstr_dup_ex(decoded, 0, i);', 'C01.s')
+M('c05h-close-finalizes-again', 'C05', 'break', 'htp/htp_connection_parser.c',
+  '        connp->out_status = HTP_STREAM_CLOSED;\n\n    // Call the parsers one last time, which will allow them\n', '        connp->out_status = HTP_STREAM_CLOSED;\n\n    if (connp->out_tx != NULL) htp_tx_finalize(connp->out_tx);\n    // Call the parsers one last time, which will allow them\n', 'C05.h')
+M('c05i-finalize-state-moves-progress-back', 'C05', 'break', RS,
+  '        htp_log(connp, HTP_LOG_MARK, HTP_LOG_WARNING, 0, "Unexpected response body");', '        connp->out_tx->response_progress = HTP_RESPONSE_BODY;\n        htp_log(connp, HTP_LOG_MARK, HTP_LOG_WARNING, 0, "Unexpected response body");', 'C05.i')
+M('c06l-dispatch-skipped-without-a-config-hook', 'C06', 'break', TX,
+  '            tx->response_entity_len += d.len;\n\n            htp_status_t rc = htp_res_run_hook_body_data(tx->connp, &d);',
+  '            tx->response_entity_len += d.len;\n\n            if (tx->connp->cfg->hook_response_body_data == NULL) break;\n            htp_status_t rc = htp_res_run_hook_body_data(tx->connp, &d);', 'C06.l')
+M('c13h-host-port-written-into-the-uri', 'C13', 'break', TX,
+  '                tx->request_port_number = port;', '                tx->request_port_number = port;\n                tx->parsed_uri->port_number = port;', 'C13.h')
+M('c16l-idle-state-suspends', 'C16', 'break', RQ,
+  'htp_status_t htp_connp_REQ_IDLE(htp_connp_t * connp) {\n', 'htp_status_t htp_connp_REQ_IDLE(htp_connp_t * connp) {\n    if (connp->in_status == HTP_STREAM_DATA_OTHER) return HTP_DATA_OTHER;\n', 'C16.l')
+M('c03i-finalize-releases-the-carry-buffer', 'C03', 'break', TX,
+  'htp_status_t htp_tx_finalize(htp_tx_t *tx) {\n    if (tx == NULL) return HTP_ERROR;\n', 'htp_status_t htp_tx_finalize(htp_tx_t *tx) {\n    if (tx == NULL) return HTP_ERROR;\n    if (tx->connp->in_tx == tx) { free(tx->connp->in_buf); tx->connp->in_buf = NULL; tx->connp->in_buf_size = 0; }\n', 'C03.i')
+M('c08h-equals-searched-in-the-rest-of-the-header', 'C08', 'break', 'htp/htp_cookies.c',
+  '        // Find the end of the cookie.\n        while ((pos < len) && (data[pos] != \';\')) pos++;',
+  '        // Find the end of the cookie.\n        int eqpos = bstr_util_mem_index_of_c(data + pos, len - pos, "=");\n        (void) eqpos;\n        while ((pos < len) && (data[pos] != \';\')) pos++;', 'C08.h')
